@@ -71,8 +71,8 @@ MANIFEST = {"technique": "runtime monitoring: recording pre/post wrappers on the
 EPS = mm.EPS
 LOG_RES = math.log(float(np.finfo(float).resolution))   # log(1e-15): the repository's fpe_equals threshold
 BAND = 1e-3            # relative band around the reset threshold inside which either behaviour is accepted
-C_BAYES = 200.0        # calibrated: worst observed error / first-order unit over 2.0e5 decided updates (thorough, seed 0) is 1.1
-C_MOM = 100.0          # calibrated: worst observed error / ((k+n) eps magnitude) over 2.5e6 comparisons is 0.57
+C_BAYES = 200.0        # calibrated: worst observed error / first-order unit over 2.6e5 decided updates (thorough, seed 0) is 1.28
+C_MOM = 100.0          # calibrated: worst observed error / ((k+n) eps magnitude) over 3.2e6 comparisons is 0.63
 DECIDE_REL = 1e-3
 
 K_ZERO_SURV = "prune-all-selected-survivor-zero-mass"
